@@ -10,7 +10,7 @@ FUNCS_NAMED = [("fn", "1"), ("fn", "10"), ("fn1", "0")]   # fn#10 has no local v
 FUNCS_DEFAULT = [("dfn", "1"), ("dfn1", "0"), ("dg", "2")]
 NARGS = 3
 VALKEYS = ["s0", "s1", "num", "none", "k3", "k6", "lst", "dct", "df", "arr", "k3b", "true", "flt", "part",
-           "part2", "arr6", "df6", "exc", "exc"]
+           "part2", "arr6", "df6", "exc", "exc", "part3"]
 OVERRIDES = [None, None, None, "ovr/shared", "ovr/other"]
 META_KEYS = ["log", "k2"]
 
@@ -30,6 +30,8 @@ def values():
         # partitions are created afresh for every memoize (storing one annotates the object)
         "part": lambda: _partition({"a": 1, "b": "x" * 10, "c": [1.5, None]}),
         "part2": lambda: _partition({"a": 1, "z": "other"}),
+        # a partition with the same value under several of its keys
+        "part3": lambda: _partition({"p": "dup-value", "q": "dup-value", "r": [7, 8], "s": [7, 8], "t": None}),
         # a recorded failure (stored like a value: calls that failed alike share the stored object)
         "exc": _failure(),
     }
